@@ -58,7 +58,9 @@ class ConnProxy:
     # -- helpers ---------------------------------------------------------
     def _released(self) -> None:
         s = sched.ACTIVE
-        if s is not None:
+        if s is not None and not s.in_sched:
+            # (read-outs made by an on_point hook run inside the scheduling decision of the waiting thread itself:
+            # their commits release nothing a waiter could be waiting for, and waking it would make it spin)
             s.wake(("db", self._path))
 
     def _run(self, fn: Any, label: str) -> Any:
